@@ -13,7 +13,7 @@ From Coq Require Import List Bool Arith NArith Lia Relations Permutation.
 Import ListNotations.
 From BB Require Import BN Brute SpaceFacts TrapFacts PercolateFacts AttractorFacts Diagram Invariants Checks Filter
   Strict PetriNet Control Meta FilterFacts PetriNetFacts TrappistFacts DiagramStruct DiagramSem1 DiagramCache
-  DiagramDepth DiagramComplete Termination ControlFacts MetaFacts Candidates StrictFacts MinExpandFacts CandidatesFacts SymbolicTest SymbolicTestFacts Signed ReductionFacts ControlFacts2 Main.
+  DiagramDepth DiagramComplete Termination ControlFacts MetaFacts Candidates StrictFacts MinExpandFacts CandidatesFacts SymbolicTest SymbolicTestFacts Signed ReductionFacts ControlFacts2 Main Blocks BlocksFacts ObsFacts OwnerFacts CandidatesTerm.
 
 Theorem C03_bfs_complete : forall (fuel : nat) (N : net) (cfg : config) (d d' : sd), 1 <= max_motifs cfg -> SWF N d -> NoStubEdges d -> EdgeStrict d -> Rooted d -> expand_bfs fuel N cfg d None None None = (d', RBool true) -> AllExpanded d'.
 Proof. exact bfs_complete. Qed.
@@ -60,6 +60,10 @@ Proof. exact run_LeafOK. Qed.
 Theorem C03_no_duplicates : forall (N : net) (d : sd) (i j : nat), SWF N d -> i < size d -> j < size d -> n_space (get d i) = n_space (get d j) -> i = j.
 Proof. exact minimal_nodes_unique. Qed.
 
+(* source-block expansion (model Blocks.v, replayed against the code): every leaf is a minimal trap space *)
+Theorem C03_block_expansion_leaves_minimal : forall (fuel : nat) (N : net) (cfg : config) (d : sd) (maa opt : bool) (sz : option nat) (tape : list bool), 1 <= max_motifs cfg -> SWF N d -> TrapNodes N d -> NoStubEdges d -> LeafOK N d -> LeafOK N (fst (expand_block fuel N cfg d maa opt sz tape)).
+Proof. exact expand_block_LeafOK_strong. Qed.
+
 (* non-vacuity: two bistable switches; x0'=x1, x1'=x0, x2'=x3, x3'=x2 *)
 Definition ex_sw : net := [fun s => nth 1 s false; fun s => nth 0 s false; fun s => nth 3 s false; fun s => nth 2 s false].
 Definition ex_cfg : config := {| max_motifs := 1000 |}.
@@ -80,3 +84,4 @@ Print Assumptions C03_minimal_space_expansion_complete.
 Print Assumptions C03_skip_remaining_exact.
 Print Assumptions C03_leaves_always_minimal.
 Print Assumptions C03_no_duplicates.
+Print Assumptions C03_block_expansion_leaves_minimal.
